@@ -55,7 +55,8 @@ class C05(object):
     required_counters = ('models.judged', 'lhs.judged', 'rhs_names.judged', 'meaning.judged', 'embedded.judged',
                          'embedded.in_global_equation', 'placeholders.handed_out', 'embedded.form.term_product',
                          'embedded.form.term_ratio', 'embedded.form.string_rhs', 'late_sector.declared',
-                         'codes_generated_mid_construction')
+                         'codes_generated_mid_construction', 'built_by_step_runner',
+                         'rebuilt_with_names_kept_from_before_first_build')
 
     def n_cases(self, tier):
         return 32 if tier == 'quick' else 1200
@@ -65,6 +66,10 @@ class C05(object):
         spec = M.gen_spec(rng, n_zones=nz, maxtime=2)
         return {'kind': 'closure', 'spec': spec, 'eseed': rng.getrandbits(30), 'n_embed': rng.randint(1, 6),
                 'early_full_codes': rng.random() < 0.3, 'solve': idx % 4 == 0,
+                # how the model is run: the real main(), the same passes by hand, the step-by-step runner the GUI uses
+                # (_GetSteps/_RunAllSteps: fix-up passes before and after equation generation), or built, extended with
+                # further equations that embed names handed out before the first build, and built again
+                'mode': {1: 'steps', 3: 'rebuild', 6: 'steps', 8: 'rebuild'}.get(idx % 10, 'plain'),
                 'codes_after_first_country': nz > 1 and rng.random() < 0.5}
 
     def run_case(self, case):
@@ -145,26 +150,71 @@ class C05(object):
                     from sfc_models.equation import Equation as _E
                     holder.AddVariableFromEquation(_E(var, 'string rhs that is a simple term', rhs=name + '*' + name))
                 embedded.append((holder, var, tsec, tl, was_ph, form, second))
-            with contextlib.redirect_stdout(io.StringIO()):
-                if case['solve']:
-                    mod.EquationSolver.MaxIterations = 3000
-                    try:
-                        mod.main()
-                    except NameError as e:
-                        # a name that is not defined anywhere: the system is not closed
-                        rec.violate('model_with_embedded_names_fails', {'err': repr(e)[:400]},
-                                    mechanism='dangling_or_unsolvable')
-                    except Exception as e:
-                        # an embedded ratio may divide by a variable that is zero, the solver may not converge:
-                        # that says nothing about closure; the emitted text is still judged below
-                        rec.count('solve_failed_for_numerical_reasons')
-                else:
-                    mod._GenerateFullSectorCodes()
-                    mod._GenerateEquations()
-                    mod._FixAliases()
-                    mod._GenerateRegisteredCashFlows()
-                    mod._ProcessExogenous()
-                    mod.FinalEquations = mod._CreateFinalEquations()
+            mode = case.get('mode', 'plain')
+            kept = []
+            if mode == 'rebuild':
+                # names requested now (placeholders unless codes exist) and kept by the caller for after the first build
+                for i in range(3):
+                    (tk, tsec) = rng.choice(sectors)
+                    locs = [l for l in EMBED_LOCALS + ['X', 'Y'] if l in tsec.EquationBlock]
+                    if locs:
+                        tl = rng.choice(locs)
+                        nm = tsec.GetVariableName(tl)
+                        kept.append((tsec, tl, nm, PLACEHOLDER.match(nm) is not None))
+
+            def run_main(solve):
+                with contextlib.redirect_stdout(io.StringIO()):
+                    if mode == 'steps':
+                        try:
+                            mod._GetSteps()
+                            mod._RunAllSteps()
+                        except NameError as e:
+                            rec.violate('model_with_embedded_names_fails', {'err': repr(e)[:400], 'mode': mode},
+                                        mechanism='dangling_or_unsolvable')
+                        except Exception as e:
+                            rec.count('solve_failed_for_numerical_reasons')
+                    elif solve:
+                        mod.EquationSolver.MaxIterations = 3000
+                        try:
+                            mod.main()
+                        except NameError as e:
+                            # a name that is not defined anywhere: the system is not closed
+                            rec.violate('model_with_embedded_names_fails', {'err': repr(e)[:400], 'mode': mode},
+                                        mechanism='dangling_or_unsolvable')
+                        except Exception as e:
+                            # an embedded ratio may divide by a variable that is zero, the solver may not converge:
+                            # that says nothing about closure; the emitted text is still judged below
+                            rec.count('solve_failed_for_numerical_reasons')
+                    else:
+                        mod._GenerateFullSectorCodes()
+                        mod._GenerateEquations()
+                        mod._FixAliases()
+                        mod._GenerateRegisteredCashFlows()
+                        mod._ProcessExogenous()
+                        mod.FinalEquations = mod._CreateFinalEquations()
+            run_main(case['solve'] or mode == 'rebuild')
+            if mode == 'steps':
+                rec.count('built_by_step_runner')
+            if mode == 'rebuild' and kept and mod.FinalEquations:
+                for j, (tsec, tl, nm, was_ph) in enumerate(kept):
+                    var = 'LATER%d' % j
+                    if j == 0:
+                        mod.AddGlobalEquation('later_glob', 'a model-level equation added after the first build', '2.0*%s + 1.0' % nm)
+                        embedded.append((None, 'later_glob', tsec, tl, was_ph, 'blob', None))
+                        continue
+                    holder = rng.choice(sectors)[1]
+                    if var in holder.EquationBlock:
+                        continue
+                    if j == 1:
+                        holder.AddVariable(var, 'added after the first build', '2.0*%s + 1.0' % nm)
+                        embedded.append((holder, var, tsec, tl, was_ph, 'blob', None))
+                    else:
+                        holder.AddVariable(var, 'added after the first build (product term)', '')
+                        holder.AddTermToEquation(var, nm + '*0.5')
+                        embedded.append((holder, var, tsec, tl, was_ph, 'term_product', None))
+                mod.FinalEquations = ''
+                run_main(True)
+                rec.count('rebuilt_with_names_kept_from_before_first_build')
         except Exception as e:
             Sector.GetVariableName = orig_gvn
             return {'verdict': 'notjudged', 'shape': shape + '|build:' + type(e).__name__, 'obs': {'err': repr(e)[:300]}}
